@@ -786,7 +786,7 @@ class ObjTranslator:
             sb = self.operators["__and__"]
             return f"{sb.lean_name} W {self.atom(e.left)} {self.atom(e.right)}", False
         if isinstance(e, ast.BinOp):
-            op = {ast.Sub: "sub", ast.Add: "concat"}.get(type(e.op))
+            op = {ast.Sub: "sub", ast.Add: "concat", ast.Mult: "mul", ast.FloorDiv: "floordiv", ast.Mod: "mod"}.get(type(e.op))
             if not op:
                 self.fail(e, "operator")
             return f"{op} {self.atom(e.left)} {self.atom(e.right)}", False
@@ -850,6 +850,14 @@ class ObjTranslator:
                 self.fail(e, "call of a sibling with effects inside an expression")
             args = sb.positional(self, e)
             return f"{sb.lean_name} W {self.recv_l} {' '.join(self.atom(x) for x in args)}".rstrip(), False
+        if isinstance(f, ast.Attribute) and e.keywords and all(k.arg for k in e.keywords) \
+                and not any(isinstance(x, ast.Starred) for x in e.args) and not self.is_self(f.value) \
+                and not self.is_state(f.value) and f.attr not in ("append", "extend", "clear", "sort", "pop", "update"):
+            # a method of a foreign object called with keyword arguments (`data.isoformat(timespec="milliseconds")`):
+            # the world's, by name; a keyword argument travels as the pair (name, value)
+            kws = [f"(OVal.seq .tuple [(OVal.str {json.dumps(k.arg)}), {self.atom(k.value)}])" for k in e.keywords]
+            items = [self.atom(f.value)] + [self.atom(x) for x in e.args] + kws
+            return f"W.ext {json.dumps(f.attr)} [{', '.join(items)}]", False
         if e.keywords or any(isinstance(a, ast.Starred) for a in e.args):
             self.fail(e, "keyword/star arguments")
         a = e.args
@@ -863,6 +871,8 @@ class ObjTranslator:
                 return f"toList {self.atom(a[0])}", False
             if n == "dict" and len(a) == 1:
                 return f"dictCopy {self.atom(a[0])}", False
+            if n == "timedelta" and len(a) == 1:
+                return f"timedeltaDays {self.atom(a[0])}", False
             if n == "getattr" and len(a) == 2:
                 return f"getattrW W {self.atom(a[0])} {self.atom(a[1])}", False
             if n in self.siblings and not self.siblings[n].is_property and self.siblings[n].kind == "fn":
@@ -879,6 +889,8 @@ class ObjTranslator:
         if isinstance(f, ast.Attribute):
             if f.attr == "get" and len(a) == 1:
                 return f"dictGet {self.atom(f.value)} {self.atom(a[0])}", False
+            if f.attr == "format" and isinstance(f.value, ast.Constant) and isinstance(f.value.value, str):
+                return f"strFormat {self.atom(f.value)} {self.args_list(a)}", False
             if f.attr in self.method_externals and not self.is_self(f.value):
                 # the same method on *another* instance (`self.base.resolve(t)`): not unfolded, the world answers
                 return f"W.ext {json.dumps(f.attr)} {self.args_list([f.value] + list(a))}", False
@@ -1058,7 +1070,7 @@ class ObjTranslator:
                 return out
             self.fail(s, "assignment target")
         if isinstance(s, ast.AugAssign):
-            op = {ast.Add: "concat", ast.Sub: "sub"}.get(type(s.op))
+            op = {ast.Add: "concat", ast.Sub: "sub", ast.Mult: "mul"}.get(type(s.op))
             if not op:
                 self.fail(s, "augmented operator")
             t = s.target
@@ -1673,7 +1685,11 @@ def gen_encode(repo: Path, notes: list, gate_ok: bool) -> str:
     return gen_group(
         repo, notes, src_file=src, cls_name=None, ns="Encode", title="utype/utils/encode.py (js_unsafe)",
         funcs=[{"py": "js_unsafe", "find": _find_module_func(repo, src, "js_unsafe"), "has_self": False, "arity": 1,
-                "consts": consts}], gate_ok=gate_ok)
+                "consts": consts},
+               {"py": "duration_iso_string", "find": _find_module_func(repo, src, "duration_iso_string"),
+                "has_self": False, "arity": 1},
+               {"py": "from_time", "find": _find_module_func(repo, src, "from_time"), "has_self": False, "arity": 1}],
+        gate_ok=gate_ok)
 
 
 def gen_field(repo: Path, notes: list, gate_ok: bool) -> str:
